@@ -152,7 +152,7 @@ def matches_known(entry, prop, vio):
 
 
 def write_replay(prop, master, vio, digest_hex=None):
-    d = os.path.join(env.VERIF_DIR, "replays")
+    d = os.environ.get("VERIF_REPLAY_DIR") or os.path.join(env.VERIF_DIR, "replays")
     os.makedirs(d, exist_ok=True)
     path = os.path.join(d, f"{prop}-{master}-{vio['run']}-{vio['oracle']}.json")
     with open(path, "w") as f:
@@ -321,7 +321,7 @@ def run_property(prop, tier, master, runs=None, workers=None, out=sys.stdout):
             "sampling, not enumeration: a clean batch is evidence, not proof",
         ],
     }
-    ed = os.path.join(env.VERIF_DIR, "evidence")
+    ed = os.environ.get("VERIF_EVIDENCE_DIR") or os.path.join(env.VERIF_DIR, "evidence")
     os.makedirs(ed, exist_ok=True)
     with open(os.path.join(ed, f"{prop}.json"), "w") as f:
         json.dump(evidence, f, indent=1, sort_keys=True)
